@@ -219,6 +219,16 @@ def build_harness(flavour):
                     failed.append((job[0], out))
                 else:
                     stamps[job[1]] = job[2]
+        if failed:
+            # a compiler killed by the OOM killer on a loaded machine is not a verdict: retry the failed objects with little parallelism
+            retry = [j for j in jobs if any(j[0] == f for f, _ in failed)]
+            failed = []
+            with ThreadPoolExecutor(max_workers=2) as ex:
+                for rc, out, job in ex.map(cc, retry):
+                    if rc != 0:
+                        failed.append((job[0], out))
+                    else:
+                        stamps[job[1]] = job[2]
         json.dump(stamps, open(stamp_path, "w"))
         log("%s: %d harness objects compiled in %.0fs" % (flavour, len(jobs), time.time() - t0))
     if failed:
